@@ -450,8 +450,15 @@ def brotli_decompress_buffer(input_buffer, buffer_limit=None):
         if meta_block_remaining_len == 0:
             continue
 
+        if buffer_limit is not None and \
+                pos + meta_block_remaining_len > buffer_limit:
+            # refuse before allocating room for the declared block
+            raise BufferError(
+                "Trying to obtain buffer larger than {0}".format(buffer_limit)
+            )
+
         if len(output_buffer) < (pos + meta_block_remaining_len):
-            output_buffer.extend(bytearray([0] * meta_block_remaining_len))
+            output_buffer.extend(bytearray(meta_block_remaining_len))
 
         if is_uncompressed:
             copy_uncompressed_block_to_output(meta_block_remaining_len, pos,
